@@ -25,11 +25,12 @@ ASSUMPTIONS = [
 def bounds(tier):
     return dict(typing="all enzyme geometries x {module, vector} x default + boundary lengths x all n rotations x {method, string}",
                 assembly="all enzyme geometries x k in 1..3 x schemes {0,1}; rotation of one participant: " + ("vector and first module" if tier == "quick" else "each participant"),
+                ambiguity="BsaI, BbsI, BspQI, FokI, BccI: each of the 11 ambiguity codes (both cases) at one position of each region of module and vector",
                 registry="all registry plasmids with exactly two cutter sites, signature-free class, " + ("rotation 0 and 4 window rotations" if tier == "quick" else "structure window"))
 
 
 def goals(tier):
-    return ["module-typing", "vector-typing", "assembly-k3", "assembly-rotated", "registry-typing", "palindromic-overhang", "rejected-both-strands"]
+    return ["module-typing", "vector-typing", "assembly-k3", "assembly-rotated", "registry-typing", "palindromic-overhang", "rejected-both-strands", "ambiguity-code-in-record"]
 
 
 def typed(cls, rec):
@@ -170,6 +171,20 @@ def run_unit(unit, st, tier):
             check_typing(st, "typing", V, vec, range(len(vec)), dict(family="typing", enz=enz, kind="vector", seq=vec))
             st.goal("module-typing")
             st.goal("vector-typing")
+            if lens is None and enz in ("BsaI", "BbsI", "BspQI", "FokI", "BccI"):
+                # records spelled with IUPAC ambiguity codes: one letter of each region replaced by each code, both cases;
+                # whatever the verdict is, it has to be the same on both strands
+                g1 = gen.geometry_of(gen.enzyme(enz))
+                L1 = len(g1.site)
+                for cls_, s_, kind_, spots in ((M, mods[0], "module", [L1, L1 + g1.off, L1 + g1.off + g1.ov, len(mods[0]) - 1]),
+                                               (V, vec, "vector", [0, g1.ov, g1.ov + len(scn["vbb"]) + g1.ov + g1.off + L1 + 1, len(vec) - 1])):
+                    for pos in spots:
+                        if pos >= len(s_):
+                            continue
+                        for code in "RYSWKMBDHVN" + "ryswkmbdhvn":
+                            s2 = s_[:pos] + code + s_[pos + 1:]
+                            check_typing(st, "ambiguity", cls_, s2, [0, 3], dict(family="typing", enz=enz, kind=kind_, seq=s2, code=code, pos=pos), ways=("string", "method"))
+                            st.goal("ambiguity-code-in-record")
             if lens is None:
                 # exactly two sites, but both in the same orientation: not a module, on either strand
                 g0 = gen.geometry_of(gen.enzyme(enz))
